@@ -51,7 +51,7 @@ type pkgAn struct {
 
 type analysis struct {
 	pkgs  map[string]*pkgAn
-	order []string // dirs, dependencies first
+	order []string                // dirs, dependencies first
 	multi map[types.Object]*pkgAn // variables declared by `var a, b = f()`
 }
 
